@@ -168,6 +168,18 @@ def stripDeleted (p : Bytes) : Option Bytes :=
   if deleted.length ≤ p.length ∧ p.drop (p.length - deleted.length) = deleted
   then some (p.take (p.length - deleted.length)) else none
 
+/-- what the file system says about a name: `some true` = something of that name exists, `some false` = nothing
+    does — there is no such entry (ENOENT), or the name cannot lead to one at all: a component on the way is not
+    a directory (ENOTDIR), is longer than any name can be (ENAMETOOLONG), is a symlink loop (ELOOP), lies on a dead
+    mount (ESTALE, EIO, ENOTCONN …): whatever the errno, `stat` did not find a file — `none` = the examination
+    itself is refused (EACCES / EPERM): we are not told -/
+def named : FsEnt → Option Bool
+  | .absent => some false
+  | .denied => none
+  | .dir => some true
+  | .file _ => some true
+  | .unstatable _ cls => if cls = .permission then none else some false
+
 /-- the link target with NUL garbage removed and a *stale* ` (deleted)` removed; silent when
     the suffixed path cannot be examined -/
 def linkClean (fs : Bytes → FsEnt) (t : Bytes) : Option Bytes :=
@@ -175,10 +187,10 @@ def linkClean (fs : Bytes → FsEnt) (t : Bytes) : Option Bytes :=
   match stripDeleted p with
   | none => some p
   | some q =>
-    match fs p with
-    | .absent => some q          -- nothing is called "… (deleted)": the suffix is the kernel's remark
-    | .denied => none
-    | _ => some p                -- a file really named "… (deleted)"
+    match named (fs p) with
+    | some false => some q       -- nothing is called "… (deleted)": the suffix is the kernel's remark
+    | none => none
+    | some true => some p        -- a file really named "… (deleted)"
 
 def link (w : World) (l : LinkSt) : Option (Res Bytes) :=
   if !w.dirExists then some (.error .noSuchProcess)
